@@ -90,7 +90,7 @@ def tree_of(it, obj, default, used=False):
         ok = z3.Star(z3.Union(z3.Range(chr(0), chr(0xD7FF)), z3.Range(chr(0xDC80), chr(0xDCFF)), z3.Range(chr(0xE000), chr(0x2FFFF))))
         it.require(z3.InRe(obj.t, ok), UnicodeEncodeError("utf-8", "<symbolic>", 0, 1, "surrogates not allowed"))
         return ("leaf", obj)
-    if obj is None or isinstance(obj, (bool, float, bytes, SBool, SBytes, MPBytes)) or type(obj).__name__ == "ISOText":
+    if obj is None or isinstance(obj, (bool, float, bytes, SBool, SBytes, MPBytes)) or type(obj).__name__ in ("ISOText", "IPText"):
         return ("leaf", obj)
     if isinstance(obj, (int, SInt)):
         z = it.zint(obj)
